@@ -7,7 +7,7 @@ import re
 from .. import calg
 from ..pymodel import package
 from ..ratemodel import model as ratemodel, SELF
-from ..valueflow import Flow, acc_as_comp, as_map, lower, match, V, show, simp, walk
+from ..valueflow import Flow, acc_as_comp, as_dict_map, as_map, flatten_fstr, lower, match, peval, truthy, V, show, simp, subst, walk
 from .c05 import REF, arms_for, variant_text, COEFF, _about_law
 from .c10 import tables, grain_methods, GRAIN_CLASSES, delegated_types
 from .c11 import name_hole
@@ -82,22 +82,33 @@ def _writer(ctx, rm, pkg):
             fields.append(("seq", sep, seq))
         else:
             fields.append(("literal", t))
-    return {"variant": v, "fields": fields, "fn": fn, "flow": fl}
+    fill = pkg.functions.get(("naunet/utilities.py", "_fill_list"))
+    return {"variant": v, "fields": fields, "fn": fn, "flow": fl, "fill_params": [a.arg for a in fill.args.args] if fill is not None and len(fill.args.args) == 3 else None}
 
 
 def _reader(ctx, pkg):
-    fn = pkg.method("Reaction", "_parse_string")
+    pkg.method("Reaction", "_parse_string")
     ctx.saw(RFILE, "Reaction._parse_string")
+    # the reader with the procedures it may have been split into put back (the species builder stays the primitive it is)
+    fn = pkg.expanded("Reaction", "_parse_string", keep=("_create_species",))
     fl = Flow(fn, RFILE)
     stores = {}
     for f in fl.facts:
         if f.kind == "attrstore" and f.extra.get("obj") == SELF:
             stores[f.target] = f
-    return {"fn": fn, "flow": fl, "stores": stores}
+    return {"fn": fn, "flow": fl, "stores": stores, "opaque": _opaque_self_calls(fn, ("_create_species",))}
 
 
-def _split_src(v):
-    """value derived from `<line>.split(',')[k]` -> (line IR, k, wrappers outermost first)"""
+def _opaque_self_calls(fn, known=()):
+    """names of the private methods still CALLED through self/cls in an expanded function (helpers that could not be put back):
+    what they assign is not visible, so "never assigned" is not a conclusion"""
+    return sorted({c.func.attr for c in ast.walk(fn) if isinstance(c, ast.Call) and isinstance(c.func, ast.Attribute) and isinstance(c.func.value, ast.Name)
+                   and c.func.value.id in ("self", "cls") and c.func.attr.startswith("_") and not c.func.attr.startswith("__") and c.func.attr not in known})
+
+
+def _split_src(v, total=None):
+    """value derived from one field of `<line>.split(',')` -> (line IR, k, wrappers outermost first); the field may be reached through a
+    destructuring, a subscript of the split list or of a slice of it (_field_index)"""
     wraps = []
     x = v
     while True:
@@ -110,15 +121,64 @@ def _split_src(v):
             x = x[1]
             continue
         break
-    if x[0] == "item" and x[1][0] == "meth" and x[1][2] == "split" and x[1][3] == (("const", ","),):
-        return x[1][1], x[2], wraps
-    # fields[k] of the split record kept whole in a local
-    if x[0] == "sub" and x[1][0] == "meth" and x[1][2] == "split" and x[1][3] == (("const", ","),) and x[2][0] == "const" and type(x[2][1]) is int:
-        return x[1][1], x[2][1], wraps
-    if x[0] == "sub" and x[1][0] == "meth" and x[1][2] == "split" and x[1][3] == (("const", ","),) and x[2][0] == "unop" and x[2][1] == "USub" \
-            and x[2][2][0] == "const" and type(x[2][2][1]) is int:
-        return x[1][1], -x[2][2][1], wraps
+    fi = _field_index(x, total)
+    if fi is not None:
+        return fi[0][1], fi[1], wraps
     return None, None, wraps
+
+
+def _field_range(x, total=None):
+    """x: a contiguous run of the fields of `<line>.split(",")` -> (the split IR, lo, hi) in absolute field positions (hi None: open or
+    counted from the end while the record length `total` is not given), or None.  The starred middle of a destructuring starts at
+    its position and leaves out the targets after it; slices compose; negative bounds count from the end of the run."""
+    if x[0] == "meth" and x[2] == "split" and x[3] == (("const", ","),):
+        return (x, 0, total)
+    if x[0] == "item" and isinstance(x[2], tuple) and x[2] and x[2][0] == "star":
+        inner = _field_range(x[1], total)
+        if inner is None:
+            return None
+        i, n = x[2][1], x[2][2]
+        return (inner[0], inner[1] + i, None if inner[2] is None else inner[2] - (n - i - 1))
+    if x[0] == "sub" and x[2][0] == "slice" and x[2][3] == ("const", None):
+        inner = _field_range(x[1], total)
+        if inner is None:
+            return None
+
+        def bound(b_, default):
+            """absolute position of a slice bound inside the run, or "?" """
+            if b_ == ("const", None):
+                return default
+            k = b_[1] if b_[0] == "const" and type(b_[1]) is int else -b_[2][1] if b_[0] == "unop" and b_[1] == "USub" and b_[2][0] == "const" and type(b_[2][1]) is int else None
+            if k is None:
+                return "?"
+            if k >= 0:
+                return inner[1] + k if inner[2] is None else min(inner[1] + k, inner[2])
+            return "?" if inner[2] is None else max(inner[2] + k, inner[1])
+        lo_abs, hi_abs = bound(x[2][1], inner[1]), bound(x[2][2], inner[2])
+        if lo_abs == "?":
+            return None
+        return (inner[0], lo_abs, None if hi_abs == "?" else hi_abs)
+    return None
+
+
+def _field_index(x, total=None):
+    """x: ONE field of the split record -> (the split IR, absolute position; negative = from the end when the length is unknown), or None"""
+    if x[0] == "item" and isinstance(x[2], int):
+        run, k = x[1], x[2]
+    elif x[0] == "sub" and x[2][0] == "const" and type(x[2][1]) is int:
+        run, k = x[1], x[2][1]
+    elif x[0] == "sub" and x[2][0] == "unop" and x[2][1] == "USub" and x[2][2][0] == "const" and type(x[2][2][1]) is int:
+        run, k = x[1], -x[2][2][1]
+    else:
+        return None
+    fr = _field_range(run, total)
+    if fr is None:
+        return None
+    if k >= 0:
+        return (fr[0], fr[1] + k)
+    if fr[2] is not None:
+        return (fr[0], fr[2] + k)
+    return (fr[0], k) if fr[1] == 0 and run[0] == "meth" else None
 
 
 def _r1_r2(ctx, w, r):
@@ -136,6 +196,13 @@ def _r1_r2(ctx, w, r):
         elif f[0] == "seq":
             seq = f[2]
             b = match(("call", ("global", "_fill_list"), (V("l"), V("n"), V("d")), ()), seq)
+            if b is None and seq[0] == "call" and seq[1] == ("global", "_fill_list") and seq[3] and w.get("fill_params"):
+                # keyword arguments: bound to the helper's parameters by name
+                names = w["fill_params"]
+                given = dict(zip(names, seq[2]))
+                given.update({k_: v_ for k_, v_ in seq[3] if k_ in names and k_ not in given})
+                if len(given) == 3 and len(seq[2]) + len(seq[3]) == 3:
+                    b = dict(zip("lnd", (given[p_] for p_ in names)))
             if b and b["n"][0] == "const":
                 m = as_map(b["l"])
                 src = None
@@ -168,9 +235,12 @@ def _r1_r2(ctx, w, r):
     for attr in ("idxfromfile", "alpha", "beta", "gamma", "temp_min", "temp_max", "reaction_type", "source"):
         f = st.get(attr)
         if f is None:
-            ctx.bad("R1", f"reader:{attr}", R, f"the reader never assigns self.{attr}")
+            if r.get("opaque"):
+                ctx.unrec("R1", f"reader:{attr}", R, f"no assignment of self.{attr} is visible in the reader, but it calls helpers that are not understood: {r['opaque'][:3]}")
+            else:
+                ctx.bad("R1", f"reader:{attr}", R, f"the reader never assigns self.{attr}")
             continue
-        ln, k, wraps = _split_src(simp(f.value))
+        ln, k, wraps = _split_src(simp(f.value), total)
         if ln is None:
             # not one field through converters.  Which fields of the record does the value depend on?  A value computed from ANOTHER column
             # (or from several) is visibly not the inverse of the writer; a value in which no field can be seen is not understood.
@@ -212,12 +282,13 @@ def _r1_r2(ctx, w, r):
             if m:
                 bv, body, base, ifs = m
                 found = show(base)[:100]
-                b = match(("sub", ("item", V("split"), V("star")), ("slice", V("lo"), V("hi"), ("const", None))), base)
-                if b and b["star"] == ("star", 1, 9) or (b and isinstance(b["star"], tuple) and b["star"][0] == "star" and b["star"][1] == 1):
-                    lo_v = b["lo"][1] if b["lo"][0] == "const" else None
-                    hi_v = b["hi"][1] if b["hi"][0] == "const" else None
-                    understood = b["lo"][0] == "const" and b["hi"][0] == "const"
-                    ok = (lo_v or 0) == lo and hi_v == hi
+                # which fields of the record, in absolute positions -- however the run is cut out (a slice of the starred middle, a slice of
+                # the split list itself, a slice of a slice)
+                fr = _field_range(base, total)
+                if fr is not None and fr[2] is not None:
+                    understood = True
+                    ok = (fr[1], fr[2]) == (1 + lo, 1 + hi)
+                    found = f"fields[{fr[1]}:{fr[2]}] of the record"
                 stripped = any(isinstance(x, tuple) and len(x) >= 3 and x[0] == "meth" and x[2] == "strip" and x[1] == bv for x in walk(body))
         if f is not None and not understood:
             ctx.unrec("R1", f"reader:{attr}:slice", (RFILE, f.line), f"cannot see which fields self.{attr} is built from: {show(simp(f.value))[:100]}")
@@ -283,7 +354,6 @@ def _r4(ctx, pkg):
     fl = Flow(fn, NET)
     writes = [f for f in fl.facts if f.kind == "call" and f.target == "write"]
     rec = [f for f in writes if f.loops and any(isinstance(x, tuple) and len(x) == 4 and x[0] == "fmt" and x[1][0] == "elem" for x in walk(simp(f.value)))]
-    nl = [f for f in writes if f.loops and simp(f.value[3][0]) in (("const", "\n"),)]
     ok = len(rec) == 1 and len(rec[0].loops) == 1 and simp(rec[0].loops[0].iter) == ("attr", SELF, "reaction_list") and not rec[0].guards
     if not rec or (len(rec) > 1 and all(f.guards for f in rec)):
         # no write of a formatted loop element found / one write per branch: the way records are written is not understood
@@ -291,12 +361,50 @@ def _r4(ctx, pkg):
     else:
         ctx.check(ok, "R4", "Network.write:one-record-per-reaction", (NET, fn.lineno), "every reaction of reaction_list is written once, in order, unconditionally",
                   found="; ".join(show(f.value)[:60] for f in rec))
-    g_ok = len(nl) == 1 and len(nl[0].guards) == 1 and nl[0].guards[0][1] is False and "krome" in show(nl[0].guards[0][0])
-    if not nl:
-        ctx.unrec("R4", "Network.write:terminator", (NET, fn.lineno), "no separate write of the line terminator found in the loop: how records are terminated is not understood")
+    # the terminator, by VALUE: with the format known not to be "krome" (the format name is the parameter that reaches the record's format
+    # spec), what the loop body writes per reaction -- all its writes in order, conditions on the format decided, whatever locals /
+    # conditional expressions / helpers the text passes through -- is the formatted reaction followed by exactly one newline
+    K = (NET, fn.lineno)
+    if not rec:
+        return
+    fparams = {y for x in walk(simp(rec[0].value)) if isinstance(x, tuple) and len(x) == 4 and x[0] == "fmt" and x[1][0] == "elem" and isinstance(x[2], tuple)
+               for y in walk(x[2]) if isinstance(y, tuple) and len(y) == 2 and y[0] == "param" and y[1] != "self"}
+    if len(fparams) != 1:
+        ctx.unrec("R4", "Network.write:terminator", K, f"cannot see which parameter names the format of the records ({sorted(p_[1] for p_ in fparams)})")
+        return
+    NK = {("cmp", ("Eq",), (next(iter(fparams)), ("const", "krome"))): False}
+    sure, maybe = [], []
+    for f in writes:
+        if not f.loops or len(f.value[3]) != 1:
+            continue
+        residual = []
+        dead = False
+        for c, pol in f.guards:
+            t = truthy(simp(peval(simp(c), NK, True)))
+            if t is None:
+                residual.append((c, pol))
+            elif t != pol:
+                dead = True
+        if dead:
+            continue
+        val = simp(peval(simp(f.value[3][0]), NK))
+        (maybe if residual else sure).append((f, val, residual))
+    text = flatten_fstr(("fstr", tuple(p_ for _f, val, _r in sure for p_ in (val[1] if val[0] == "fstr" else (val,) if val[0] == "const" and isinstance(val[1], str) else (("fmt", val, None, -1),)))))
+    parts = list(text[1]) if text[0] == "fstr" else [text]
+    recpart = [p_ for p_ in parts if p_[0] == "fmt" and p_[1][0] == "elem"]
+    after = parts[parts.index(recpart[0]) + 1:] if len(recpart) == 1 else None
+    cond_nl = [(f, r) for f, val, r in maybe if any(isinstance(x, tuple) and len(x) == 2 and x[0] == "const" and isinstance(x[1], str) and "\n" in x[1] for x in walk(val))]
+    if cond_nl:
+        f, r = cond_nl[0]
+        ctx.bad("R4", "Network.write:terminator", K, "the line terminator of a non-KROME record is written only under a further condition: records for which it does not hold run into the next one",
+                expected="exactly one newline after every record", found=f"{show(f.value)[:40]} guards {[(show(g)[:30], p_) for g, p_ in r]}")
+    elif after is None or maybe or any(p_[0] != "const" for p_ in after) or parts.index(recpart[0]) != 0:
+        ctx.unrec("R4", "Network.write:terminator", K, "what the loop writes per reaction in a non-KROME format is not understood as the formatted reaction followed by literal text: "
+                  + show(text)[:120] + (f" (+ {len(maybe)} conditional write(s))" if maybe else ""))
     else:
-        ctx.check(g_ok, "R4", "Network.write:terminator", (NET, fn.lineno), "each record of a non-KROME format is terminated by exactly one newline",
-                  found="; ".join(f"{show(f.value)[:40]} guards {[(show(g)[:30], p) for g, p in f.guards]}" for f in nl))
+        tail = "".join(p_[1] for p_ in after)
+        ctx.check(tail == "\n", "R4", "Network.write:terminator", K, "each record of a non-KROME format is terminated by exactly one newline",
+                  expected=repr("\n"), found=repr(tail))
 
 
 def _unify_env(regs, F):
@@ -466,6 +574,8 @@ def _content_tables_whole(ctx, pkg, rm):
         ctx.missing("R10", "BaseConfiguration.content", (CONF, ci.node.lineno), "the configuration writer vanished")
         return
     ctx.saw(CONF, "BaseConfiguration.content")
+    # the writer with the procedures it may have been split into put back (self._fill_x(content["x"]) is the run of stores it performs)
+    fn = pkg.expanded("BaseConfiguration", "content")
     fl = Flow(fn, CONF, consts=rm.module_consts(CONF), resolver=lambda name: pkg.resolve("BaseConfiguration", name)[1] if name.startswith("_") and not name.startswith("__") else None)
 
     def through_helpers(v, depth=0):
@@ -487,22 +597,23 @@ def _content_tables_whole(ctx, pkg, rm):
         key, attr = f.index[1], EXPORTED_TABLES[f.index[1]]
         n += 1
         T = ("attr", SELF, attr)
-        v = through_helpers(simp(f.value))
+        v = v0 = through_helpers(simp(f.value))
         while v[0] == "copy" or (v[0] == "call" and v[1] in (("global", "dict"), ("global", "list")) and len(v[2]) == 1 and not v[3]):
             v = v[1] if v[0] == "copy" else v[2][0]
         k = f"BaseConfiguration.content[{key!r}]"
         if v == T:
             ctx.ok("R10", k, (CONF, f.line), f"self.{attr} is written whole")
             continue
-        if v[0] == "comp" and len(v[3]) == 1:
-            tg, it, ifs = v[3][0]
-            src_ok = it in (T, ("meth", T, "items", (), ()))
-            if src_ok and ifs:
+        # a table re-spelled entry by entry: {str(k): v for k, v in T.items()}, dict(zip(map(str, T), T.values())), {str(k): T[k] for k in T} ..
+        dm = as_dict_map(v0)
+        if dm is not None and dm[4] == T:
+            K_, X_, kb, vb, _, ifs = dm
+            if ifs:
                 ctx.bad("R10", k, (CONF, f.line), f"entries of self.{attr} are filtered out on the way into naunet_config.toml ({'; '.join(show(c)[:50] for c in ifs)}): a value the filter "
                         "rejects (0, 0.0, '' ..) is a setting the user made, and the re-rendered project silently computes with the default instead",
                         expected=f"every entry of self.{attr}", found=show(v)[:120])
                 continue
-            if src_ok and not ifs:
+            if vb == X_ and any(x == K_ for x in walk(kb)) and not any(x == X_ for x in walk(kb)):
                 ctx.ok("R10", k, (CONF, f.line), f"every entry of self.{attr} is written (keys re-spelled)")
                 continue
         ctx.unrec("R10", k, (CONF, f.line), f"cannot see that self.{attr} reaches the configuration file whole: {show(v)[:120]}")
@@ -539,22 +650,45 @@ def _r6(ctx, pkg):
     from .c06 import _r1 as assignment_rule
     ctx.absorb(assignment_rule, "R8")
     _refusal_propagates(ctx, pkg)
-    fn = pkg.method("Network", "export")
+    pkg.method("Network", "export")
     ctx.saw(NET, "Network.export")
-    src = ast.unparse(fn)
+    # the exporter with the stages it may have been split into put back (`if not self._export_x(..): return` is the stage's decision
+    # tree, procedures are their statements); Network.write stays the primitive the rule is about
+    fn = pkg.expanded("Network", "export", keep=("write",))
     w = [c for c in ast.walk(fn) if isinstance(c, ast.Call) and ast.unparse(c.func) == "self.write"]
-    # by role: the first argument is a local whose value is <export dir> / 'reactions.naunet'
-    arg0 = w[0].args[0] if len(w) == 1 and w[0].args else None
-    val0 = [ast.unparse(n.value) for n in ast.walk(fn) if isinstance(n, ast.Assign) and isinstance(arg0, ast.Name) and any(isinstance(t, ast.Name) and t.id == arg0.id for t in n.targets)]
-    ok = len(w) == 1 and len(w[0].args) >= 2 and ast.unparse(w[0].args[1]) == "'naunet'" and len(val0) == 1 and re.fullmatch(r"\w+ / 'reactions\.naunet'", val0[0]) is not None
-    # positive evidence of a wrong export: the format argument is another literal, or the file name is another literal
-    wrong_fmt = len(w) == 1 and len(w[0].args) >= 2 and isinstance(w[0].args[1], ast.Constant) and w[0].args[1].value != "naunet"
-    wrong_name = len(w) == 1 and len(val0) == 1 and re.fullmatch(r"\w+ / '[^']*'", val0[0]) is not None and not val0[0].endswith("/ 'reactions.naunet'")
-    if ok or wrong_fmt or wrong_name:
-        ctx.check(ok, "R6", "Network.export:reaction-file", (NET, fn.lineno), "export writes path/'reactions.naunet' in the 'naunet' format", found=ast.unparse(w[0]) if w else "")
+    # by VALUE: the arguments of that call as use-def expansion gives them -- the file is <export dir> joined with a literal name
+    # (`dir / "name"`, dir.joinpath("name"), os.path.join(dir, "name"), Path(dir, "name"); through a local, a module constant or inline),
+    # the format a literal (keyword or positional)
+    rmod = ratemodel(ctx.tree)
+    wfacts = [f for f in Flow(fn, NET, consts=rmod.module_consts(NET)).facts if f.kind == "call" and f.target == "write" and f.value[0] == "meth" and f.value[1] == SELF]
+    fname = fmt = None
+    shown = ""
+    if len(w) == 1 and len(wfacts) == 1:
+        args, kws = wfacts[0].value[3], dict(wfacts[0].value[4])
+        wparams = [a_.arg for a_ in pkg.method("Network", "write").args.args][1:]
+        given = dict(zip(wparams, args))
+        given.update({k_: v_ for k_, v_ in kws.items() if k_ in wparams and k_ not in given})
+        a0 = simp(given[wparams[0]]) if wparams and wparams[0] in given else None
+        a1 = simp(given[wparams[1]]) if len(wparams) > 1 and wparams[1] in given else None
+        shown = f"self.write({show(a0) if a0 else '?'}, {show(a1) if a1 else '?'})"
+        if a0 is not None:
+            last = None
+            if a0[0] == "binop" and a0[1] == "Div":
+                last = a0[3]
+            elif a0[0] == "meth" and a0[2] == "joinpath" and a0[3] and not a0[4]:
+                last = a0[3][-1]
+            elif a0[0] == "call" and a0[1] in (("attr", ("attr", ("global", "os"), "path"), "join"), ("global", "Path"), ("global", "PurePath")) and len(a0[2]) >= 2 and not a0[3]:
+                last = a0[2][-1]
+            if last is not None and last[0] == "const" and isinstance(last[1], str):
+                fname = last[1]
+        if a1 is not None and a1[0] == "const" and isinstance(a1[1], str):
+            fmt = a1[1]
+    if fname is not None and fmt is not None:
+        ctx.check(fname == "reactions.naunet" and fmt == "naunet", "R6", "Network.export:reaction-file", (NET, fn.lineno), "export writes path/'reactions.naunet' in the 'naunet' format",
+                  expected="self.write(<dir> / 'reactions.naunet', 'naunet')", found=shown)
     else:
         ctx.unrec("R6", "Network.export:reaction-file", (NET, fn.lineno), f"cannot see which file / format Network.export writes the reactions to ({len(w)} self.write calls"
-                  + (f": {ast.unparse(w[0])[:80]}, path = {val0[:2]}" if w else "") + ")")
+                  + (f": {shown}" if shown else "") + ")")
     # ... on EVERY path that goes on to write the configuration and the sources (must-pass-through): the exchange file and the
     # generated code describe the same network also when the project directory already exists
     if len(w) == 1:
@@ -584,8 +718,14 @@ def _r6(ctx, pkg):
         if dom == "?":
             ctx.unrec("R6", "Network.export:reaction-file on every continuing path", (NET, w[0].lineno), "the write of reactions.naunet sits inside a statement whose paths are not understood")
             dom = None
-        later = [c for c in ast.walk(fn) if isinstance(c, ast.Call) and (ast.unparse(c.func) == "NetworkConfiguration" or (isinstance(c.func, ast.Attribute) and c.func.attr in ("render", "write") and
-                                                                                                                  ast.unparse(c.func) != "self.write")) and c.lineno > w[0].lineno]
+        def in_order(node):
+            yield node
+            for ch in ast.iter_child_nodes(node):
+                yield from in_order(ch)
+        calls = [c for c in in_order(fn) if isinstance(c, ast.Call)]
+        at = next(i for i, c in enumerate(calls) if c is w[0])
+        later = [c for c in calls[at + 1:] if ast.unparse(c.func) == "NetworkConfiguration" or (isinstance(c.func, ast.Attribute) and c.func.attr in ("render", "write") and
+                                                                                             ast.unparse(c.func) != "self.write")]
         if dom is not None:
             ctx.check(dom is True and len(later) >= 2, "R6", "Network.export:reaction-file on every continuing path", (NET, w[0].lineno),
                       "every path that reaches the configuration/source rendering has (re)written reactions.naunet" if dom else
@@ -593,8 +733,13 @@ def _r6(ctx, pkg):
                       "leaves the OLD reaction file next to NEW sources", expected="self.write(reaction_file, 'naunet') unconditionally before the configuration is written",
                       found="write nested under a condition whose other arm continues")
     ci = pkg.cls("NetworkConfiguration")
-    init = ci.methods["__init__"]
     ctx.saw(CONF, "NetworkConfiguration.__init__")
+    # (the constructor with the procedures it may have been split into put back)
+    init = pkg.expanded("NetworkConfiguration", "__init__") if "__init__" in ci.methods else None
+    if init is None:
+        ctx.missing("R6", "NetworkConfiguration.__init__", (CONF, ci.node.lineno), "the exported configuration has no constructor of its own")
+        return
+    opaque_init = _opaque_self_calls(init)
     # by value: what is stored into the two attributes (a literal list, however it is spelled / named on the way)
     fl = Flow(init, CONF, consts=ratemodel(ctx.tree).module_consts(CONF))
     named = {}
@@ -633,11 +778,14 @@ def _r6(ctx, pkg):
                 # the table was filled by a loop of element stores: the dict comprehension it is equal to
                 v = acc_as_comp(fl, v[1]) or v
             found = show(v)[:120]
-            shape = v[0] == "comp" and v[1] == "dict" and len(v[3]) == 1
+            # a dict comprehension over the species, however the species list reaches it (directly, through a local holding the
+            # filtered list, through a generator): composed into ONE map  {key(s): value(s) for s in <base> if <filters>}
+            m = as_map(("comp", "list", v[2], v[3])) if v[0] == "comp" and v[1] == "dict" else None
+            shape = m is not None and m[2] == ("attr", ("param", "network"), "species")
             if shape:
-                tg, it, ifs = v[3][0]
-                ok = it == ("attr", ("param", "network"), "species") and tuple(ifs) == (("attr", tg, "is_surface"),) and \
-                    v[2] == ("tuple", (("attr", tg, "name"), ("attr", tg, attr)))
+                bv, body, base, ifs = m
+                ok = tuple(ifs) == (("attr", bv, "is_surface"),) and body == ("tuple", (("attr", bv, "name"), ("attr", bv, attr)))
+                found = "{" + f"{show(body[1][0])}: {show(body[1][1])}" + "} " + f"for {show(bv)} in {show(base)}" + "".join(f" if {show(c)}" for c in ifs) if body[0] == "tuple" and len(body[1]) == 2 else found
             if not shape:
                 # not a table built per species (a helper's result, a merged dict ..): nothing visible is wrong
                 ctx.unrec("R6", f"NetworkConfiguration:{nm}", (CONF, vals[-1][3]), f"the exported {nm} table is not understood as a table over the species: {found}")
@@ -646,7 +794,10 @@ def _r6(ctx, pkg):
                   f"the exported table holds {attr} of every surface species of the network (values set through the API included)",
                   expected=f"{{s.name: s.{attr} for s in network.species if s.is_surface}}", found=found)
     for tgt, what in (("_bindingenergy", "binding energies"), ("_photonyield", "yields")):
-        ctx.check(tgt in stv, "R6", f"NetworkConfiguration:{tgt}", (CONF, init.lineno), f"the exported {what} are that table")
+        if tgt not in stv and opaque_init:
+            ctx.unrec("R6", f"NetworkConfiguration:{tgt}", (CONF, init.lineno), f"no assignment of self.{tgt} is visible, but the constructor calls helpers that are not understood: {opaque_init[:3]}")
+        else:
+            ctx.check(tgt in stv, "R6", f"NetworkConfiguration:{tgt}", (CONF, init.lineno), f"the exported {what} are that table")
 
 
 MUTANTS = [
@@ -720,3 +871,141 @@ MUTANTS.append({"name": "content-drops-falsy-modifiers", "file": CONF, "old": " 
                 "new": "            str(key): value for key, value in self._ratemodifier.items() if value\n", "rules": ["R10"]})
 BENIGN.append({"name": "content-tables-copied", "file": CONF, "old": '        chem_species["photon_yield"] = self._photonyield\n',
                "new": '        chem_species["photon_yield"] = dict(self._photonyield)\n'})
+
+# ---- spellings accepted since the round-5 benign sets (each also as a seeded defect written in the new spelling) ----
+_WR_TAIL_OLD = ('                    f"{self.alpha:10.3e}",\n                    f"{self.beta:10.3e}",\n                    f"{self.gamma:10.3e}",\n                    f"{self.temp_min:9.2f}",\n'
+                '                    f"{self.temp_max:9.2f}",\n                    f"{self.reaction_type:>4}",\n                    f"{self.source:>8}",\n')
+_CLS_FMT = '    format = "naunet"\n'
+
+
+def _wr_layout(second, third):
+    """the trailing columns formatted by a helper method from a class-level (attribute, spec) layout"""
+    return [{"file": RFILE, "old": _WR_TAIL_OLD, "new": '                    *self._columns(self._TAIL_LAYOUT),\n'},
+            {"file": RFILE, "old": _CLS_FMT, "new": _CLS_FMT + '\n    _TAIL_LAYOUT = (("alpha", "10.3e"), ("' + second + '", "10.3e"), ("' + third + '", "10.3e"), ("temp_min", "9.2f"), ("temp_max", "9.2f"),\n'
+             '                    ("reaction_type", ">4"), ("source", ">8"))\n\n    def _columns(self, layout):\n        return [format(getattr(self, attr), spec) for attr, spec in layout]\n'}]
+
+
+_RD_FLOATS_OLD = ('        self.alpha = float(a)\n        self.beta = float(b)\n        self.gamma = float(c)\n        self.temp_min = float(lt)\n        self.temp_max = float(ut)\n')
+
+
+def _rd_setattr(names):
+    return ('        columns = zip(' + names + ', (a, b, c, lt, ut))\n        for attrname, text in columns:\n            setattr(self, attrname, float(text))\n')
+
+
+def _rd_sliced(strip, hi):
+    """all species columns cleaned first, then cut into reactants / products"""
+    return ('        names = [name' + strip + ' for name in rps]\n        rcols, pcols = names[0:3], names[3:' + hi + ']\n'
+            '        self.reactants = [self._create_species(r) for r in rcols if self._create_species(r)]\n'
+            '        self.products = [self._create_species(p) for p in pcols if self._create_species(p)]\n')
+
+
+_NW_OLD = ('                if format == "krome":\n                    self._rateconverter.read(\n                        reac.rateexpr(grain_dict.get(reac.grain_group))\n                    )\n'
+           '                    outf.write(f",{self._rateconverter:fortran}\\n")\n\n                else:\n                    outf.write(f"\\n")\n')
+_NW_DEF = '    def write(self, filename: str | Path, format: str = "") -> None:\n'
+
+
+def _nw_ending(nl):
+    return [{"file": NET, "old": _NW_OLD, "new": '                ending = self._rate_column(reac, grain_dict) if format == "krome" else ""\n                outf.write(ending' + nl + ')\n'},
+            {"file": NET, "old": _NW_DEF, "new": '    def _rate_column(self, reac, grain_dict):\n        self._rateconverter.read(reac.rateexpr(grain_dict.get(reac.grain_group)))\n'
+             '        return f",{self._rateconverter:fortran}"\n\n' + _NW_DEF}]
+
+
+_EX_OLD = ('        reaction_file = path / "reactions.naunet"\n        if os.path.exists(reaction_file) and not overwrite:\n            logger.warning("Reaction file exists! Stop exporting!")\n'
+           '            return\n\n        self.write(reaction_file, "naunet")\n')
+_EX_DEF = '    def export(\n        self,\n        name: str,\n'
+
+
+def _ex_stage(body):
+    return [{"file": NET, "old": _EX_OLD, "new": '        if not self._export_reactions(path, overwrite):\n            return\n'},
+            {"file": NET, "old": _EX_DEF, "new": '    def _export_reactions(self, path, overwrite) -> bool:\n        reaction_file = path / "reactions.naunet"\n' + body + '\n' + _EX_DEF}]
+
+
+_EX_GOOD = ('        if os.path.exists(reaction_file) and not overwrite:\n            logger.warning("Reaction file exists! Stop exporting!")\n            return False\n\n'
+            '        self.write(reaction_file, "naunet")\n        return True\n')
+_EX_BAD = ('        if os.path.exists(reaction_file):\n            if not overwrite:\n                logger.warning("Reaction file exists! Stop exporting!")\n                return False\n            return True\n\n'
+           '        self.write(reaction_file, "naunet")\n        return True\n')
+_CT_SPECIES_OLD = ('        chem_species = chemistry["species"]\n        chem_species["allowed"] = self._allowedspecies\n        chem_species["required"] = self._extraspecies\n'
+                   '        chem_species["binding_energy"] = self._bindingenergy\n        chem_species["photon_yield"] = self._photonyield\n')
+_CT_SPECIES_UPD = ('        chemistry["species"].update(\n            {\n                "allowed": self._allowedspecies,\n                "required": self._extraspecies,\n'
+                   '                "binding_energy": self._bindingenergy,\n                "photon_yield": self._photonyield,\n            }\n        )\n')
+_CT_DEF = '    @property\n    def content(self) -> str:\n'
+_CT_PROC = ('    def _fill_species(self, table) -> None:\n        table["allowed"] = self._allowedspecies\n        table["required"] = self._extraspecies\n'
+            '        table["binding_energy"] = self._bindingenergy\n        table["photon_yield"] = self._photonyield\n\n')
+_CT_RM_OLD = '        chemistry["rate_modifier"] = {\n            str(key): value for key, value in self._ratemodifier.items()\n        }\n'
+
+
+def _cf_local(extra):
+    return ('        surface = [s for s in network.species if s.is_surface' + extra + ']\n        binding = {s.name: s.eb for s in surface}\n        yields = {s.name: s.photon_yield for s in surface}\n')
+
+
+BENIGN += [
+    {"name": "writer-tail-by-class-layout-helper", "edits": _wr_layout("beta", "gamma")},
+    {"name": "reader-floats-by-zip-setattr", "file": RFILE, "old": _RD_FLOATS_OLD, "new": _rd_setattr('("alpha", "beta", "gamma", "temp_min", "temp_max")')},
+    {"name": "reader-names-cleaned-then-sliced", "file": RFILE, "old": _RD_OLD, "new": _rd_sliced(".strip()", "8")},
+    {"name": "write-ending-by-conditional-expression", "edits": _nw_ending(' + "\\n"')},
+    {"name": "export-reaction-stage-helper", "edits": _ex_stage(_EX_GOOD)},
+    {"name": "content-species-by-update-display", "file": CONF, "old": _CT_SPECIES_OLD, "new": _CT_SPECIES_UPD},
+    {"name": "content-species-by-procedure", "edits": [{"file": CONF, "old": _CT_SPECIES_OLD, "new": '        self._fill_species(chemistry["species"])\n'}, {"file": CONF, "old": _CT_DEF, "new": _CT_PROC + _CT_DEF}]},
+    {"name": "content-ratemodifier-zip-map", "file": CONF, "old": _CT_RM_OLD, "new": '        chemistry["rate_modifier"] = dict(zip(map(str, self._ratemodifier.keys()), self._ratemodifier.values()))\n'},
+    {"name": "config-surface-list-in-local", "file": CONF, "old": _CF_OLD, "new": _cf_local("")},
+]
+MUTANTS += [
+    {"name": "writer-class-layout-beta-gamma-swapped", "edits": _wr_layout("gamma", "beta"), "rules": ["R1"]},
+    {"name": "reader-zip-setattr-names-swapped", "file": RFILE, "old": _RD_FLOATS_OLD, "new": _rd_setattr('("alpha", "gamma", "beta", "temp_min", "temp_max")'), "rules": ["R1"]},
+    {"name": "reader-sliced-short", "file": RFILE, "old": _RD_OLD, "new": _rd_sliced(".strip()", "7"), "rules": ["R1"]},
+    {"name": "reader-sliced-no-strip", "file": RFILE, "old": _RD_OLD, "new": _rd_sliced("", "8"), "rules": ["R2"]},
+    {"name": "write-ending-without-newline", "edits": _nw_ending(""), "rules": ["R4"]},
+    {"name": "export-stage-keeps-old-file", "edits": _ex_stage(_EX_BAD), "rules": ["R6"]},
+    {"name": "content-ratemodifier-pairs-filtered", "file": CONF, "old": _CT_RM_OLD,
+     "new": '        chemistry["rate_modifier"] = dict((str(key), value) for key, value in self._ratemodifier.items() if value)\n', "rules": ["R10"]},
+    {"name": "config-surface-local-user-values-only", "file": CONF, "old": _CF_OLD, "new": _cf_local(" and s._binding_energy"), "rules": ["R6"]},
+]
+
+_RD_SPLIT_OLD = '        idx, *rps, a, b, c, lt, ut, rtype, source = react_string.split(",")\n'
+
+
+def _rd_indexed(names):
+    """the record cut by index arithmetic instead of a starred destructuring"""
+    return ('        fields = react_string.split(",")\n        idx, rps, tail = fields[0], fields[1:-7], fields[-7:]\n        ' + names + ' = tail\n')
+
+
+BENIGN.append({"name": "reader-fields-by-index-arithmetic", "file": RFILE, "old": _RD_SPLIT_OLD, "new": _rd_indexed("a, b, c, lt, ut, rtype, source")})
+MUTANTS.append({"name": "reader-index-arithmetic-beta-gamma-swapped", "file": RFILE, "old": _RD_SPLIT_OLD, "new": _rd_indexed("a, c, b, lt, ut, rtype, source"), "rules": ["R1"]})
+
+_FILL_OLD = 'rnames = _fill_list([f"{x:>12}" for x in rnames], 3, dummy)'
+BENIGN.append({"name": "writer-fill-count-by-keyword", "file": RFILE, "old": _FILL_OLD, "new": 'rnames = _fill_list([f"{x:>12}" for x in rnames], dummy=dummy, nitem=3)'})
+MUTANTS.append({"name": "writer-fill-count-by-keyword-wrong", "file": RFILE, "old": _FILL_OLD, "new": 'rnames = _fill_list([f"{x:>12}" for x in rnames], dummy=dummy, nitem=4)', "rules": ["R1"]})
+BENIGN.append({"name": "writer-columns-by-percent-format", "file": RFILE, "old": '                    f"{self.alpha:10.3e}",\n                    f"{self.beta:10.3e}",\n',
+               "new": '                    "%10.3e" % self.alpha,\n                    "%10.3e" % (self.beta,),\n'})
+MUTANTS.append({"name": "writer-percent-format-fixed-point", "file": RFILE, "old": '                    f"{self.alpha:10.3e}",\n', "new": '                    "%10.3f" % self.alpha,\n', "rules": ["R2"]})
+
+BENIGN.append({"name": "export-file-joined-inline", "file": NET, "old": '        self.write(reaction_file, "naunet")\n', "new": '        self.write(format="naunet", filename=path.joinpath("reactions.naunet"))\n'})
+MUTANTS.append({"name": "export-inline-other-name", "file": NET, "old": '        self.write(reaction_file, "naunet")\n', "new": '        self.write(format="naunet", filename=path.joinpath("reaction.naunet"))\n', "rules": ["R6"]})
+
+_RD_DEF = '    def _parse_string(self, react_string: str) -> None:\n'
+
+
+def _rd_procedure(second, third):
+    """the numeric columns converted by a helper procedure of the class"""
+    return [{"file": RFILE, "old": _RD_FLOATS_OLD, "new": '        self._read_numbers(a, b, c, lt, ut)\n'},
+            {"file": RFILE, "old": _RD_DEF, "new": '    def _read_numbers(self, alpha, beta, gamma, tmin, tmax) -> None:\n        self.alpha = float(alpha)\n        self.beta = float(' + second + ')\n'
+             '        self.gamma = float(' + third + ')\n        self.temp_min = float(tmin)\n        self.temp_max = float(tmax)\n\n' + _RD_DEF}]
+
+
+BENIGN.append({"name": "reader-numbers-by-procedure", "edits": _rd_procedure("beta", "gamma")})
+MUTANTS.append({"name": "reader-procedure-beta-gamma-swapped", "edits": _rd_procedure("gamma", "beta"), "rules": ["R1"]})
+
+
+def _rd_zip_fields(names):
+    """the numeric columns paired with their attribute names by zipping a literal with a slice of the record"""
+    return {"file": RFILE, "old": _RD_FLOATS_OLD, "new": '        fields = react_string.split(",")\n        for attrname, text in zip(' + names + ', fields[-7:-2]):\n            setattr(self, attrname, float(text))\n'}
+
+
+def _rd_record_dict(key):
+    """the tail of the record kept as a dict keyed by column name"""
+    return {"file": RFILE, "old": '        self.beta = float(b)\n', "new": '        cols = dict(zip(("alpha", "beta", "gamma", "tmin", "tmax", "type", "source"), react_string.split(",")[-7:]))\n        self.beta = float(cols["' + key + '"])\n'}
+
+
+BENIGN += [dict(_rd_zip_fields('("alpha", "beta", "gamma", "temp_min", "temp_max")'), name="reader-floats-zipped-with-record-slice"), dict(_rd_record_dict("beta"), name="reader-column-from-keyed-record")]
+MUTANTS += [dict(_rd_zip_fields('("alpha", "beta", "gamma", "temp_max", "temp_min")'), name="reader-zipped-slice-bounds-swapped", rules=["R1"]),
+            dict(_rd_record_dict("gamma"), name="reader-keyed-record-wrong-column", rules=["R1"])]
